@@ -5,7 +5,7 @@ use std::{
 
 use super::{Stringifier, Stringify};
 use crate::{
-    escape::escape_html_body,
+    escape::{escape_html_body, escape_html_body_before},
     parse::{
         expr::Expression,
         tag::{
@@ -722,10 +722,15 @@ impl Stringify for Value {
                     stringifier: &mut Stringifier<'s, W>,
                     start_location: &Range<Position>,
                     end_location: &Range<Position>,
+                    before_binding: bool,
                 ) -> FmtResult {
                     match expr {
                         Expression::LitStr { value, location } => {
-                            stringifier.write_token(&escape_html_body(value), None, location)?;
+                            stringifier.write_token(
+                                &escape_html_body_before(value, before_binding),
+                                None,
+                                location,
+                            )?;
                             return Ok(());
                         }
                         Expression::ToStringWithoutUndefined { value, location } => {
@@ -751,8 +756,22 @@ impl Stringify for Value {
                                 false
                             };
                             if split {
-                                split_expression(&left, stringifier, start_location, location)?;
-                                split_expression(&right, stringifier, location, end_location)?;
+                                let right_is_binding =
+                                    !matches!(&**right, Expression::LitStr { .. });
+                                split_expression(
+                                    &left,
+                                    stringifier,
+                                    start_location,
+                                    location,
+                                    right_is_binding,
+                                )?;
+                                split_expression(
+                                    &right,
+                                    stringifier,
+                                    location,
+                                    end_location,
+                                    before_binding,
+                                )?;
                                 return Ok(());
                             }
                         }
@@ -795,6 +814,7 @@ impl Stringify for Value {
                         stringifier,
                         &double_brace_location.0,
                         &double_brace_location.1,
+                        false,
                     )?;
                 } else {
                     stringifier.write_token("{{", None, &double_brace_location.0)?;
